@@ -769,7 +769,8 @@ GRIS_CLASSES = {"1": "refused or crashed on a closed, consistently oriented, sim
                 "15": "vertex anchored to the wrong kind of entity", "16": "faces connected without crossing a curve have different surfaces",
                 "17": "boundary edges not separated by a node have different curves",
                 "18": "C16:dropped-corner-chords-cross",
-                "19": "two different boundary curves carry the same curve identifier"}
+                "19": "two different boundary curves carry the same curve identifier",
+                "20": "C16:dropped-corner-chord-on-grid-line"}
 VALIDATOR_TRUST = PROPS["C01"]["trusted"][:3] + ["vtkio (reader of the geometry file) is exercised, not modelled",
                                                  "the kernel itself is not modelled: only its outputs are validated"]
 PROPS["C16"] = dict(
